@@ -54,6 +54,7 @@ func (e *Engine) GroundObligations(prop, tier string) ([]*Obligation, []string) 
 		g.inj32()
 		g.auditArch()
 		g.aliases()
+		g.tablesFrozen()
 	case "C07":
 		// premise of the 'valid policies are accepted' clauses (infoInj of spec/50_policy2.smt2) for the real tables
 		g.inj32()
@@ -67,6 +68,7 @@ func (e *Engine) GroundObligations(prop, tier string) ([]*Obligation, []string) 
 	case "C02":
 		g.jumpTests()
 		g.endianValues()
+		g.endianProbe()
 	case "C05":
 		g.jumpTests()
 		g.bpfOpcodes()
@@ -74,6 +76,7 @@ func (e *Engine) GroundObligations(prop, tier string) ([]*Obligation, []string) 
 		g.jumpTests()
 		g.bpfOpcodes()
 		g.endianValues()
+		g.endianProbe()
 	case "C13":
 		g.globalsImmutable(nil)
 	case "C18":
@@ -332,6 +335,149 @@ func (g *groundCtx) endianValues() {
 		})
 	}
 	g.add(fn, fn+"#ground.values", fmt.Sprintf("nativeEndian has no initializer and is only ever assigned binary.LittleEndian or binary.BigEndian (%d assignments): the premise of axiom endian", assigns), len(bad) == 0 && assigns >= 2, strings.Join(bad, "; "), obj.Pos())
+}
+
+// endianProbe: the axiom's second half - nativeEndian is LittleEndian exactly on little-endian machines - on the text of
+// the probe in init(): a 16-bit constant V is stored through (*uint16)(unsafe.Pointer(&buf[0])) into a [2]byte, and a
+// switch over that array assigns the order. On a little-endian machine the array then is {V&0xff, V>>8}, on a
+// big-endian one {V>>8, V&0xff} (the definition of the two byte orders - the one fact about the hardware used). The
+// obligation: the case with the low byte first assigns binary.LittleEndian and nothing else, the case with the high
+// byte first binary.BigEndian, both cases exist, and the two bytes of V differ. If the probe has another shape the
+// obligation is not generated (the expected-obligation floor then reports UNDECIDED; the loader family probes the real
+// machine) - only a probe that is recognised and maps an order wrongly is a violation. This is the only check that
+// sees the big-endian branch: no big-endian machine is available to the witness families.
+func (g *groundCtx) endianProbe() {
+	p := g.e.pkgNamed("seccomp")
+	if p == nil {
+		return
+	}
+	obj, _ := p.Types.Scope().Lookup("nativeEndian").(*types.Var)
+	if obj == nil {
+		return
+	}
+	fn := "seccomp.init"
+	for _, f := range p.Syntax {
+		if strings.HasSuffix(g.e.Fset.Position(f.Pos()).Filename, "_test.go") {
+			continue
+		}
+		for _, d := range f.Decls {
+			fd, ok := d.(*ast.FuncDecl)
+			if !ok || fd.Recv != nil || fd.Name.Name != "init" || fd.Body == nil {
+				continue
+			}
+			// the probe store: *(*uint16)(unsafe.Pointer(&buf[0])) = V
+			var bufObj types.Object
+			var v uint64
+			found := false
+			var sw *ast.SwitchStmt
+			for _, st := range fd.Body.List {
+				switch x := st.(type) {
+				case *ast.AssignStmt:
+					if len(x.Lhs) != 1 || len(x.Rhs) != 1 {
+						continue
+					}
+					star, ok := unparen(x.Lhs[0]).(*ast.StarExpr)
+					if !ok {
+						continue
+					}
+					conv, ok := unparen(star.X).(*ast.CallExpr)
+					if !ok || len(conv.Args) != 1 || exprString(conv.Fun) != "(*uint16)" {
+						continue
+					}
+					up, ok := unparen(conv.Args[0]).(*ast.CallExpr)
+					if !ok || len(up.Args) != 1 || exprString(up.Fun) != "unsafe.Pointer" {
+						continue
+					}
+					ad, ok := unparen(up.Args[0]).(*ast.UnaryExpr)
+					if !ok || ad.Op != token.AND {
+						continue
+					}
+					ix, ok := unparen(ad.X).(*ast.IndexExpr)
+					if !ok {
+						continue
+					}
+					id, ok := unparen(ix.X).(*ast.Ident)
+					itv := p.TypesInfo.Types[ix.Index]
+					rtv := p.TypesInfo.Types[x.Rhs[0]]
+					if !ok || itv.Value == nil || rtv.Value == nil {
+						continue
+					}
+					if i0, _ := constant.Uint64Val(itv.Value); i0 != 0 {
+						continue
+					}
+					at, isArr := p.TypesInfo.TypeOf(id).Underlying().(*types.Array)
+					if !isArr || at.Len() != 2 {
+						continue
+					}
+					bufObj = p.TypesInfo.ObjectOf(id)
+					v, _ = constant.Uint64Val(rtv.Value)
+					found = true
+				case *ast.SwitchStmt:
+					if id, ok := unparen(x.Tag).(*ast.Ident); ok && found && p.TypesInfo.ObjectOf(id) == bufObj {
+						sw = x
+					}
+				}
+			}
+			if !found || sw == nil {
+				continue
+			}
+			lo, hi := v&0xff, (v>>8)&0xff
+			var bad []string
+			seenLE, seenBE := false, false
+			for _, cs := range sw.Body.List {
+				cc := cs.(*ast.CaseClause)
+				want := ""
+				for _, e := range cc.List {
+					cl, ok := unparen(e).(*ast.CompositeLit)
+					if !ok || len(cl.Elts) != 2 {
+						bad = append(bad, "case "+exprString(e)+" is not a two-byte literal")
+						continue
+					}
+					a, b := p.TypesInfo.Types[cl.Elts[0]].Value, p.TypesInfo.Types[cl.Elts[1]].Value
+					if a == nil || b == nil {
+						bad = append(bad, "case "+exprString(e)+" is not constant")
+						continue
+					}
+					av, _ := constant.Uint64Val(a)
+					bv, _ := constant.Uint64Val(b)
+					switch {
+					case av == lo && bv == hi:
+						want, seenLE = "binary.LittleEndian", true
+					case av == hi && bv == lo:
+						want, seenBE = "binary.BigEndian", true
+					}
+				}
+				// what the clause assigns to nativeEndian
+				ast.Inspect(cc, func(n ast.Node) bool {
+					as, ok := n.(*ast.AssignStmt)
+					if !ok {
+						return true
+					}
+					for i, l := range as.Lhs {
+						if id, ok := unparen(l).(*ast.Ident); ok && p.TypesInfo.ObjectOf(id) == obj && i < len(as.Rhs) {
+							got := exprString(as.Rhs[i])
+							if want == "" {
+								bad = append(bad, fmt.Sprintf("a case that matches neither byte order of %#x assigns %s", v, got))
+							} else if got != want {
+								bad = append(bad, fmt.Sprintf("the case for %s assigns %s", want, got))
+							}
+						}
+					}
+					return true
+				})
+			}
+			if lo == hi {
+				bad = append(bad, fmt.Sprintf("the two bytes of the probe value %#x are equal", v))
+			}
+			if !seenLE {
+				bad = append(bad, "no case for the little-endian layout")
+			}
+			if !seenBE {
+				bad = append(bad, "no case for the big-endian layout")
+			}
+			g.add(fn, fn+"#ground.endian_probe", fmt.Sprintf("init(): after storing %#x through a *uint16 at &buf[0], the case {%#x, %#x} (low byte first) assigns binary.LittleEndian and the case {%#x, %#x} assigns binary.BigEndian: nativeEndian names the machine's byte order (second half of axiom endian)", v, lo, hi, hi, lo), len(bad) == 0, strings.Join(bad, "; "), fd.Pos())
+		}
+	}
 }
 
 // tablesInjective: in the literal number->name table of each Info, no name carries two numbers, and the Info literal
@@ -1004,6 +1150,25 @@ func (g *groundCtx) globalsImmutable(only [][2]string) {
 			bad = append(bad, w)
 		}
 		g.add(fn, fn+"#ground.immutable", v.pkg+"."+v.name+" is never assigned, mutated or address-taken outside init() in the module's non-test files (read-only shared data: no race, no history dependence)", len(bad) == 0, strings.Join(bad, "; "), obj.Pos())
+	}
+}
+
+// tablesFrozen (C12): the number->name tables, the Info values built from them (their name->number maps are computed by
+// package-level initialisers, i.e. before every init() function) and the alias map are written nowhere in the module's
+// non-test files - not even in an init(): a table pruned or patched after its inverse was built no longer is its inverse.
+func (g *groundCtx) tablesFrozen() {
+	p := g.e.pkgNamed("arch")
+	if p == nil {
+		return
+	}
+	for _, name := range []string{"arches", "ARM", "AARCH64", "I386", "X32", "X86_64", "syscallsARM", "syscallsAARCH64", "syscalls386", "syscallsX32", "syscallsX86_64"} {
+		obj, ok := p.Types.Scope().Lookup(name).(*types.Var)
+		fn := "arch." + name
+		if !ok {
+			continue // existence is the matter of ground.tables
+		}
+		g.e.isMutableGlobal(obj) // fills the table
+		g.add(fn, fn+"#ground.frozen", "arch."+name+" is never assigned, mutated (delete, copy, element store) or address-taken after its initialiser, init() functions included: the inverse tables computed at initialisation stay inverses", len(g.e.writtenGlobals[obj]) == 0, strings.Join(g.e.writtenGlobals[obj], "; "), obj.Pos())
 	}
 }
 
